@@ -138,6 +138,7 @@ func (l *Loaded) bind() []string {
 			unbound = append(unbound, sp.Pkg.Name()+"."+c.Key())
 			continue
 		}
+		c.Fn = fn
 		if prev := l.bound[fn]; prev != nil {
 			mergeContracts(prev, c)
 		} else {
@@ -283,6 +284,8 @@ func main() {
 			fatalf("usage: govc replay <replay file>")
 		}
 		os.Exit(cmdReplay(os.Args[2]))
+	case "locals":
+		cmdLocals(len(os.Args) > 2 && os.Args[2] == "-w")
 	case "list":
 		l := load()
 		ub := l.bind()
@@ -388,6 +391,9 @@ func mergeContracts(dst, src *Contract) {
 	dst.Asserts = append(dst.Asserts, tag(src.Asserts, src.Props, false)...)
 	delete(src.Flags, "own-props-only")
 	delete(dst.Flags, "own-props-only")
+	if len(dst.Locals) == 0 {
+		dst.Locals = src.Locals
+	}
 	dst.Requires = append(dst.Requires, src.Requires...)
 	dst.Honest = append(dst.Honest, src.Honest...)
 	dst.Modifies = append(dst.Modifies, src.Modifies...)
@@ -430,6 +436,59 @@ func mergeContracts(dst, src *Contract) {
 	for _, p := range src.Props {
 		if !contains(dst.Props, p) {
 			dst.Props = append(dst.Props, p)
+		}
+	}
+}
+
+// cmdLocals prints (or, with -w, writes into the contract files) the `locals` clause of every contract block: the
+// local variables of the function in declaration order, the reference for reading contracts after a renaming.
+func cmdLocals(write bool) {
+	l := load()
+	l.bind()
+	byFile := map[string][]*Contract{}
+	for _, c := range l.cs.Contracts {
+		if c.Fn != nil {
+			byFile[c.File] = append(byFile[c.File], c)
+		}
+	}
+	for file, cs := range byFile {
+		data, err := os.ReadFile(file)
+		if err != nil {
+			fatalf("%v", err)
+		}
+		lines := strings.Split(string(data), "\n")
+		sort.Slice(cs, func(i, j int) bool { return cs[i].Line > cs[j].Line }) // bottom-up: insertions keep earlier line numbers valid
+		changed := false
+		for _, c := range cs {
+			names := declaredLocals(c.Fn)
+			hdr := c.Line - 1
+			if hdr < 0 || hdr >= len(lines) || !strings.HasPrefix(strings.TrimSpace(strings.TrimPrefix(lines[hdr], "//@")), "func ") {
+				fmt.Fprintf(os.Stderr, "govc locals: %s:%d: header not on one line, skipped\n", file, c.Line)
+				continue
+			}
+			has := hdr+1 < len(lines) && strings.HasPrefix(strings.TrimSpace(strings.TrimPrefix(lines[hdr+1], "//@")), "locals")
+			want := localsLine(names)
+			switch {
+			case len(names) == 0 && has:
+				lines = append(lines[:hdr+1], lines[hdr+2:]...)
+				changed = true
+			case len(names) == 0:
+			case has && lines[hdr+1] != want:
+				lines[hdr+1] = want
+				changed = true
+			case !has:
+				lines = append(lines[:hdr+1], append([]string{want}, lines[hdr+1:]...)...)
+				changed = true
+			}
+			if !write {
+				fmt.Printf("%s: %s\n", funcKey(c.Fn), strings.Join(names, " "))
+			}
+		}
+		if write && changed {
+			if err := os.WriteFile(file, []byte(strings.Join(lines, "\n")), 0o644); err != nil {
+				fatalf("%v", err)
+			}
+			fmt.Println("updated", file)
 		}
 	}
 }
